@@ -7,7 +7,8 @@ from .calls import CallMixin
 from .builtins_ import BuiltinMixin
 from .specs import SpecMixin
 from .symcont import SymContMixin
+from .loops import LoopMixin
 
 
-class Engine(SymContMixin, SpecMixin, BuiltinMixin, CallMixin, StmtMixin, ExprMixin, BytesMixin, EngineBase):
+class Engine(LoopMixin, SymContMixin, SpecMixin, BuiltinMixin, CallMixin, StmtMixin, ExprMixin, BytesMixin, EngineBase):
     pass
